@@ -206,6 +206,12 @@ func showBip(r *bscript.BIP276) string {
 func genC15(e *emitter, tier string, seed uint64) {
 	r := newRng(seed ^ 0xC15)
 	quick := tier == "quick"
+	// the transaction-level constructors (txoutput.go), on a generator of their own
+	if quick {
+		genOutC15(e, newRng(seed^0xC15F), 60)
+	} else {
+		genOutC15(e, newRng(seed^0xC15F), 3000)
+	}
 	nAddr := 5
 	if !quick {
 		nAddr = 120
